@@ -125,7 +125,9 @@ def config(kill_plugin="kill_by_memory_size_or_growth", recursive=False):
          "actions": [det("systemd_restart", service="x.service", dry="true")], "post_action_delay": "0"},
     ] + ([] if not recursive else []),
         # prekill hooks are fired for every victim of the kill actions above
-        "prekill_hooks": [det("dummy_prekill_hook", cgroup="workload/*")]}
+        # (recursive variants: a hook that is still running at its first poll, so the kill is deferred to the next tick and
+        #  carried out by resumeFromPrekillHook - with the tick's faults in place)
+        "prekill_hooks": [det("verif_slow_prekill_hook" if recursive else "dummy_prekill_hook", cgroup="workload/*")]}
 
 
 PROC = {
